@@ -283,9 +283,14 @@ func (n *WorkflowNode) SetStaticValue(path FieldPath, value any) *WorkflowNode {
 	return n
 }
 
-func (n *WorkflowNode) addDependencyRelation(fromNodeKey string, inputs []*FieldMapping, options *workflowAddInputOpts) *WorkflowNode {
-	for _, input := range inputs {
-		input.fromNodeKey = fromNodeKey
+func (n *WorkflowNode) addDependencyRelation(fromNodeKey string, declared []*FieldMapping, options *workflowAddInputOpts) *WorkflowNode {
+	// the declaration is applied at Compile: it keeps copies of its own, so that a caller reusing the slice (or one of
+	// the mappings) for the next declaration does not rewrite this one
+	inputs := make([]*FieldMapping, len(declared))
+	for i, input := range declared {
+		mapping := *input
+		mapping.fromNodeKey = fromNodeKey
+		inputs[i] = &mapping
 	}
 
 	if options.noDirectDependency {
